@@ -124,6 +124,13 @@ func escape(s string, m map[rune]string) string {
 		case '\\', '"', '\'':
 			v = append(v, `\`+string(c))
 		default:
+			// Some codes have no notation that reads back unambiguously
+			// (control/meta of a non-printable, a quote or a backslash).
+			if needsHex(c) {
+				v = append(v, fmt.Sprintf(`\x%02x`, c))
+				continue
+			}
+
 			var s string
 			if IsControl(c) {
 				s += `\C-`
@@ -146,6 +153,19 @@ func escape(s string, m map[rune]string) string {
 	}
 
 	return strings.Join(v, "")
+}
+
+// needsHex returns true when c (below 256) must be escaped as \xHH.
+func needsHex(c rune) bool {
+	switch {
+	case c == 0x1c: // \C-\ would swallow or be merged with what follows
+		return true
+	case IsMeta(c):
+		d := Demeta(c)
+		return !unicode.IsPrint(d) || d == '\\' || d == '"' || d == '\''
+	}
+
+	return false
 }
 
 // Encontrol encodes a Control-c code.
